@@ -380,6 +380,27 @@ func runSyncConsultsInSubscribe(c *Ctx) {
 				if _, isLk := ex.Tuple.(*ssa.Lookup); isLk && !outcome {
 					return false
 				}
+				// the lookup may be wrapped in a same-package helper returning (state, ok)
+				if call, isCall := ex.Tuple.(*ssa.Call); isCall && !outcome {
+					if h := call.Call.StaticCallee(); h != nil && len(h.Blocks) > 0 && h.Pkg == fn.Pkg {
+						fromLookup := false
+						EachInstr(h, func(in ssa.Instruction) {
+							if r, ok := in.(*ssa.Return); ok {
+								vals := retVals(r)
+								if len(vals) == 2 {
+									if e2, ok := vals[1].(*ssa.Extract); ok {
+										if _, isLk := e2.Tuple.(*ssa.Lookup); isLk {
+											fromLookup = true
+										}
+									}
+								}
+							}
+						})
+						if fromLookup {
+							return false
+						}
+					}
+				}
 			}
 			return true
 		},
@@ -1328,4 +1349,39 @@ func runPartitionTagSingleSource(c *Ctx, rule string) {
 	}
 	c.CheckAt(rule, "formatting of partition indices examined", "broker_redis.go", true, "")
 	_ = n
+}
+
+// flagGuardValue: the boolean v can be true only where the subscribed flag of Client.channels[ch] was
+// found set: v is that test itself, or a φ whose edges are the constant false, or values computed in blocks
+// dominated by the test.
+func flagGuardValue(w *World, v ssa.Value) bool {
+	sub := w.flagGuard("flagSubscribed", true, "Client.channels[")
+	if sub(Guard{Cond: v, Pol: true}) {
+		return true
+	}
+	phi, ok := v.(*ssa.Phi)
+	if !ok {
+		return false
+	}
+	for i, e := range phi.Edges {
+		if k, known := boolConst(e); known && !k {
+			continue
+		}
+		if sub(Guard{Cond: e, Pol: true}) {
+			continue
+		}
+		if i >= len(phi.Block().Preds) {
+			return false
+		}
+		dominated := false
+		for _, g := range GuardsOfBlock(phi.Block().Preds[i]) {
+			if sub(g) {
+				dominated = true
+			}
+		}
+		if !dominated {
+			return false
+		}
+	}
+	return true
 }
